@@ -99,6 +99,8 @@ def run(tier, seed, opens):
     from bitcoinlib.wallets import Wallet
     from bitcoinlib.keys import HDKey
     t0 = time.time()
+    import random as _random
+    _random.seed(1010 + seed)           # the library itself draws from the global generator (output order, number of change outputs)
     listed = {o.get('id') for o in opens}
     tmp = tempfile.mkdtemp(prefix='c10-', dir=os.environ.get('BCL_DATA_DIR'))
     db = 'sqlite:///' + os.path.join(tmp, 'w.sqlite')
